@@ -83,6 +83,19 @@ def cases():
         ]},
         {"ending": "return", "crash": False},
     )
+    # F24: a worker lingers, then dies, between acquire and release of the management lock in its time-out branch while
+    # the client keeps submitting
+    seq = []
+    for i in range(14):
+        seq += [{"op": "submit", "ex": "e", "task": {"k": "sleep", "d": 0.1}}, {"op": "wait", "futs": "all"}]
+    rel = _rel(pe._process_worker, "processes_management_lock.release()")
+    out["F24-dead-worker-holds-management-lock-submit-blocks"] = (
+        "C01",
+        {"threads": [[{"op": "new", "ex": "e", "kind": "plain", "kw": {"max_workers": 3, "timeout": 0.15}}] + seq + [{"op": "shutdown", "ex": "e", "wait": True}]], "end": "return"},
+        {"rules": [{"role": "worker", "proc": "*", "thread": "user", "file": "process_executor.py", "qual": "_process_worker", "rel": rel, "hit": 1, "action": ["sleep", 0.6]},
+                   {"role": "worker", "proc": "*", "thread": "user", "file": "process_executor.py", "qual": "_process_worker", "rel": rel, "hit": 1, "action": ["kill", "SIGKILL"]}]},
+        {"kw": {"timeout": 0.15}},
+    )
     return out
 
 
